@@ -17,8 +17,9 @@ type DecorSpec struct {
 }
 
 type Fault struct {
-	Kind string `json:"kind"` // fill | ext | out
-	At   int    `json:"at"`   // k-th call (1-based)
+	Kind string `json:"kind"`           // fill | ext | out
+	At   int    `json:"at"`             // k-th call (1-based); -k: k-th call after the done channel is closed; 0 with When
+	When string `json:"when,omitempty"` // "C": the first Fill that sees the bar completed
 }
 
 type Op struct {
@@ -31,6 +32,7 @@ type Op struct {
 	NoPop   bool        `json:"nopop,omitempty"`
 	After   string      `json:"after,omitempty"`
 	Prio    *int        `json:"prio,omitempty"`
+	ID      *int        `json:"id,omitempty"` // BarID (ids may collide: they are labels, not keys)
 	Pre     []DecorSpec `json:"pre,omitempty"`
 	App     []DecorSpec `json:"app,omitempty"`
 	Ext     int         `json:"ext,omitempty"` // extender rows
@@ -52,6 +54,7 @@ type Cfg struct {
 	OutFault int    `json:"outfault"` // k-th output Write fails (0 = never)
 	Ctx      bool   `json:"ctx"`      // NewWithContext with a harness-owned cancel
 	Narrow   bool   `json:"narrow"`   // the width is too small for the rows to be parsed: only rules that do not read row contents apply
+	UWG      bool   `json:"uwg"`      // WithWaitGroup: the clients other than the first are "workers" of a user wait group
 	AutoToo  bool   `json:"autotoo"`  // WithAutoRefresh() given together with WithManualRefresh (manual wins, as documented)
 }
 
